@@ -651,10 +651,43 @@ def check_requires(prog, site_func, site, req):
         return False, "guard `%s %s %s => Err` not found in %s" % (lhs, rel, rhs, g.key)
     if kind == "pred-guard":
         n = 0
+
+        def false_means_reject(target, depth=0, seen=None):
+            """the predicate was false and control reached `target`: does the function reject?  Either no
+            accepting exit is reachable, or a boolean summary is set to false on the way and the
+            function rejects (directly or through further summaries) when that boolean is false."""
+            seen = seen if seen is not None else set()
+            if depth > 6 or target in seen:
+                return False
+            seen.add(target)
+            if not g.can_reach(target, oks):
+                return True
+            b = target
+            for _ in range(6):
+                blk = g.blocks[b]
+                for st in blk["s"]:
+                    if st["k"] == "assign" and len(st["p"]) == 1 and st["rv"][0] == "use" and st["rv"][1][0] == "k" and \
+                            g.local_ty(st["p"][0]) == "bool" and str(st["rv"][1][1].get("v")) in ("0", "false"):
+                        y = st["p"][0]
+                        sw = []
+                        for bi2, blk2 in enumerate(g.blocks):
+                            t2 = blk2["t"]
+                            if t2["k"] == "switch" and not blk2.get("cleanup") and op_local(t2["d"]) is not None and y in g.copy_chain(op_local(t2["d"])):
+                                sw.append((bi2, [tg for tg, lab in g.succ(bi2) if lab == "0"]))
+                        if sw and all(tg_list and all(false_means_reject(tg, depth + 1, seen) for tg in tg_list) for _, tg_list in sw):
+                            return True
+                succ = g.succ(b)
+                if len(succ) != 1:
+                    break
+                b = succ[0][0]
+            return False
         for bi, t in g.calls_named(req["pred"]):
             for c in g.bool_checks_of(bi):
                 if c["false_edges"] and all(not g.can_reach(tt, oks) for _, tt in c["false_edges"]) or \
                         c["true_edges"] and all(not g.can_reach(tt, oks) for _, tt in c["true_edges"]):
+                    n += 1
+                    break
+                if c["false_edges"] and all(false_means_reject(tt) for _, tt in c["false_edges"]):
                     n += 1
                     break
         if n >= req.get("count", 1):
